@@ -120,6 +120,11 @@ func (g *cg) Int(d int) string {
 		return b.String()
 	case 10:
 		g.hd("case")
+		if g.r.IntN(3) == 0 {
+			// dispatch on a symbol: the key lists are data in an unquoted position
+			return fmt.Sprintf("(case '%s ((%s %s) %s) (%s %s) ((%s) %s) (t %s))", fw.Pick(g.r, symNames[:6]),
+				symNames[0], symNames[1], g.Int(d), symNames[2], g.Int(d), symNames[3], g.Int(d), g.Int(d))
+		}
 		return fmt.Sprintf("(case (mod %s 4) (0 %s) ((1 2) %s) (t %s))", g.Int(d), g.Int(d), g.Int(d), g.Int(d))
 	case 11:
 		g.hd("progn")
@@ -513,8 +518,35 @@ func longDoc(r *rand.Rand) string {
 
 // codeOpts selects avoid-set constructs for generated code.
 type codeOpts struct {
-	backquote bool
-	longDoc   bool
+	backquote  bool
+	longDoc    bool
+	specialDoc int  // documentation holding 1 = " or \ (avoid set: doc-escape), 2 = _ (avoid set: doc-underscore)
+	caseKeys   bool // a case key list that starts with a symbol the printer has a layout for (avoid set: case-keys)
+	stringBody int  // the only body form is a string: 1 = short and plain, 2 = one the printer's documentation layout changes (avoid set: string-body)
+}
+
+// specialDoc yields a documentation string with the characters that matter
+// to the printer of documentation: " and \ (kind 1), or _, the emphasis
+// mark-up of describe output (kind 2).
+func specialDoc(r *rand.Rand, kind int) string {
+	if kind == 1 {
+		return fw.Pick(r, []string{"say \"hi\"", "a back\\slash", "bold and \"quoted\" text", "\\", "\"x\""}) +
+			fw.Pick(r, []string{"", " adds", " is saved"})
+	}
+	return fw.Pick(r, []string{"the _first_ one", "under_score", "__bold__ text", "x_"}) + fw.Pick(r, []string{"", " adds", " is saved"})
+}
+
+// layoutKeys are case key lists whose first symbol has a pretty printer
+// layout of its own (as a code walker's dispatch has them).
+var layoutKeys = []string{"(let)", "(let let*)", "(defun defmacro)", "(lambda function)", "(quote function)", "(block)", "(block tagbody)",
+	"(defmethod defgeneric)", "(defclass)", "(make-instance)", "(defflavor)", "(progn prog1)", "(dotimes dolist)", "(defvar defparameter)"}
+
+// stringBody yields the string that is all of a function's body.
+func stringBody(r *rand.Rand, kind int) string {
+	if kind == 1 {
+		return fw.Pick(r, []string{"x", "the sum", "is saved", "", "a b c"})
+	}
+	return fw.Pick(r, []string{"just_a_string", "say \"hi\"", "back\\slash", "two  spaces and a\nnewline", longDoc(r), "snake_case_name"})
 }
 
 // genFunction yields a defun (or lambda when name is empty).
@@ -533,6 +565,22 @@ func genFunction(r *rand.Rand, name string, depth int, o codeOpts) (fd fnDef, he
 		doc := genDoc(r)
 		if o.longDoc {
 			doc = longDoc(r)
+		}
+		if 0 < o.specialDoc {
+			doc = specialDoc(r, o.specialDoc)
+		}
+		if o.caseKeys {
+			ll, probes = "(p0)", []string{"'let", "'defun", "'lambda", "'function", "'block", "'a", "'zz", "'defmethod", "'quote"}
+			body = []string{fmt.Sprintf("(case p0 (%s %d) ((a b) %d) (%s %d) (t %d))", fw.Pick(r, layoutKeys), r.IntN(9), r.IntN(9), fw.Pick(r, layoutKeys), r.IntN(9), r.IntN(9))}
+			if doc != "" {
+				body = append([]string{litString(doc)}, body...)
+			}
+			break
+		}
+		if 0 < o.stringBody {
+			// nothing but a string: it is the value, not documentation
+			body = []string{litString(stringBody(r, o.stringBody))}
+			break
 		}
 		if doc != "" {
 			body = append(body, litString(doc))
@@ -571,6 +619,14 @@ func genMacro(r *rand.Rand, name string, o codeOpts) fnDef {
 	}
 	if o.longDoc {
 		doc = litString(longDoc(r)) + " "
+	}
+	if 0 < o.specialDoc {
+		doc = litString(specialDoc(r, o.specialDoc)) + " "
+	}
+	if 0 < o.stringBody {
+		fd.Src = fmt.Sprintf("(defmacro %s (a) %s)", name, litString(stringBody(r, o.stringBody)))
+		fd.Probes = []string{"1", "(+ 1 2)"}
+		return fd
 	}
 	if o.backquote {
 		switch r.IntN(5) {
